@@ -40,12 +40,20 @@ func caseEdges(fn *ssa.Function, tag eng.VM, k *types.Const) []eng.Edge {
 }
 
 func runC10(c *eng.Ctx) {
+	c.Rule("R10.10", "K1")
+	ruleStopOnAnEmptiedLogEnds(c)
+	c.Rule("R08.6", "K4")
+	ruleReverseScanRecoversFromDeleted(c)
 	c.Rule("R01.6", "K1")
 	ruleSearchPredicates(c)
 	c.Rule("R06.4", "K2")
 	ruleReadonlyReappliedUnconditionally(c)
 	c.Rule("R03.12", "K5")
 	ruleReadAtAnswersFromTheFile(c)
+	c.Rule("R03.13", "K1")
+	ruleAppendRechecksReadonlyUnderTheLock(c)
+	c.Rule("R09.9", "K5")
+	ruleReadPathSkipsDeletedSegments(c)
 	p := c.P
 	var apiTypes *types.Package
 	for _, sp := range p.SSA.AllPackages() {
@@ -294,6 +302,8 @@ func runC10(c *eng.Ctx) {
 	}
 	// An empty active segment (the state after every age-based roll, until the next append) has no first entry: probing it
 	// makes the binary search fail with EOF. The list handed to the search must leave it out (unless it is the only segment).
+	// the list of segments a lookup may see: l.segments, or (since the retention repair) the readable part of it
+	segList := eng.Or(eng.Load(segF, nil), eng.Call(-1, cl+"commitLog.readableSegments"))
 	for _, k := range []string{"EarliestOffsetAfterTimestamp", "LatestOffsetBeforeTimestamp"} {
 		fn := c.Fn(cl + "(*commitLog)." + k)
 		if fn == nil {
@@ -304,11 +314,11 @@ func runC10(c *eng.Ctx) {
 		if ph, isPhi := L.(*ssa.Phi); isPhi {
 			trimmed, plainGuarded := false, true
 			nonEmpty := eng.BoolEdges(fn, eng.Call(-1, cl+"segment.IsEmpty"), false)
-			single := eng.CmpEdges(fn, eng.Len(eng.Load(segF, nil)), eng.IntConst(1), eng.LE)
+			single := eng.CmpEdges(fn, eng.Len(segList), eng.IntConst(1), eng.LE)
 			for i, e := range ph.Edges {
-				if sl, isSl := e.(*ssa.Slice); isSl && eng.Load(segF, nil)(sl.X) && sl.High != nil && eng.Bin(token.SUB, eng.Len(eng.Load(segF, nil)), eng.IntConst(1))(sl.High) && sl.Low == nil {
+				if sl, isSl := e.(*ssa.Slice); isSl && segList(sl.X) && sl.High != nil && eng.Bin(token.SUB, eng.Len(segList), eng.IntConst(1))(sl.High) && sl.Low == nil {
 					// the trimmed list is taken only when there is more than one segment AND the last one is empty
-					several := eng.CmpEdges(fn, eng.Len(eng.Load(segF, nil)), eng.IntConst(1), eng.GT)
+					several := eng.CmpEdges(fn, eng.Len(segList), eng.IntConst(1), eng.GT)
 					isEmpty := eng.BoolEdges(fn, eng.Call(-1, cl+"segment.IsEmpty"), true)
 					g1, _ := eng.GuardedBy(fn, sl, several)
 					g2, _ := eng.GuardedBy(fn, sl, isEmpty)
@@ -317,7 +327,7 @@ func runC10(c *eng.Ctx) {
 					}
 					continue
 				}
-				if eng.Load(segF, nil)(e) {
+				if segList(e) {
 					pred := ph.Block().Preds[i]
 					q := &eng.PathQuery{Fn: fn, FromEntry: true, TargetEdge: func(ed eng.Edge) bool { return ed.From == pred && ed.To() == ph.Block() }, CutEdges: append(append([]eng.Edge{}, nonEmpty...), single...)}
 					if q.Find() != nil {
@@ -330,7 +340,7 @@ func runC10(c *eng.Ctx) {
 			// the emptiness test looks at the last segment
 			lastTested := false
 			for _, ie := range eng.CallsIn(fn, cl+"segment.IsEmpty") {
-				if ia := indexOfLoad(ie.Common().Args[0]); ia != nil && eng.Bin(token.SUB, eng.Len(eng.Load(segF, nil)), eng.IntConst(1))(ia.Index) {
+				if ia := indexOfLoad(ie.Common().Args[0]); ia != nil && eng.Bin(token.SUB, eng.Len(segList), eng.IntConst(1))(ia.Index) {
 					lastTested = true
 				}
 			}
